@@ -1,0 +1,56 @@
+//! Verification hooks for property C11 (compiled only with `--cfg linfa_verif`).
+//! Thin read-only wrappers around the private solver functions of `algorithm.rs`.
+use super::{
+    block_coordinate_descent as bcd, block_soft_thresholding as bst, coordinate_descent as cd,
+    duality_gap as gap, duality_gap_mtl as gap_mtl,
+};
+use linfa::Float;
+use ndarray::{Array1, Array2, ArrayView1, ArrayView2};
+
+pub fn coordinate_descent<'a, F: Float>(
+    x: ArrayView2<'a, F>,
+    y: ArrayView1<'a, F>,
+    tol: F,
+    max_steps: u32,
+    l1_ratio: F,
+    penalty: F,
+) -> (Array1<F>, F, u32) {
+    cd(x, y, tol, max_steps, l1_ratio, penalty)
+}
+
+pub fn block_coordinate_descent<'a, F: Float>(
+    x: ArrayView2<'a, F>,
+    y: ArrayView2<'a, F>,
+    tol: F,
+    max_steps: u32,
+    l1_ratio: F,
+    penalty: F,
+) -> (Array2<F>, F, u32) {
+    bcd(x, y, tol, max_steps, l1_ratio, penalty)
+}
+
+pub fn block_soft_thresholding<F: Float>(x: ArrayView1<F>, threshold: F) -> Array1<F> {
+    bst(x, threshold)
+}
+
+pub fn duality_gap<'a, F: Float>(
+    x: ArrayView2<'a, F>,
+    y: ArrayView1<'a, F>,
+    w: ArrayView1<'a, F>,
+    r: ArrayView1<'a, F>,
+    l1_ratio: F,
+    penalty: F,
+) -> F {
+    gap(x, y, w, r, l1_ratio, penalty)
+}
+
+pub fn duality_gap_mtl<'a, F: Float>(
+    x: ArrayView2<'a, F>,
+    y: ArrayView2<'a, F>,
+    w: ArrayView2<'a, F>,
+    r: ArrayView2<'a, F>,
+    l1_ratio: F,
+    penalty: F,
+) -> F {
+    gap_mtl(x, y, w, r, l1_ratio, penalty)
+}
